@@ -784,6 +784,8 @@ class Esc:
             if isinstance(s, ast.Assert):
                 return
             for child in ast.iter_child_nodes(s):
+                if isinstance(s, ast.AnnAssign) and child is s.annotation:
+                    continue        # annotations of locals are never evaluated in function scope
                 if isinstance(child, ast.expr):
                     expr(child, hs, s.lineno)
             if any(isinstance(x, (ast.Await, ast.Yield, ast.YieldFrom)) for x in ast.walk(s)):
